@@ -40,6 +40,15 @@ func genDec(t *rapid.T) core.Dec {
 		}
 		return d
 	}
+	if gen.Pick(t, 900, "hugecoeff") == 1 {
+		// about 100000 digits with the lowest legal exponents: every text form must still be
+		// readable (Text('E') prints 100000 fraction digits and a small written exponent)
+		n := 100000 + rapid.IntRange(-3, 3).Draw(t, "hlen")
+		d.Coeff = gen.DigitsN(t, n, gen.Pick(t, 10, "hshape"), "hc")
+		d.Neg = rapid.Bool().Draw(t, "hneg")
+		d.Exp = int32(-gen.Limit + rapid.IntRange(0, 3).Draw(t, "hoff"))
+		return d
+	}
 	n := 1
 	switch gen.Pick(t, 20, "lenk") {
 	case 0:
